@@ -305,8 +305,16 @@ def run_subcheck(mod, sc: SubCheck, tier: str, seedval: int, n_examples: int, kn
     t0 = time.time()
     state = {"fail": None}
 
+    crumb = os.environ.get("NSSVERIF_BREADCRUMB")
+
     def run_body(case):
         ev.evaluations += 1
+        if crumb:  # the case about to run, for the parent to find if native code kills this process
+            try:
+                with open(crumb, "w") as f:
+                    json.dump({"subcheck": sc.name, "case": to_jsonable(case)}, f, default=str)
+            except (OSError, TypeError, ValueError):
+                pass
         try:
             labels = set(sc.body(case) or ())
         except Violation as v:
@@ -395,7 +403,9 @@ def replay_case(mod, sc_name: str, case):
 
 
 def _worker(args):
-    modname, names, tier, base_seed, shard, nshards = args
+    modname, names, tier, base_seed, shard, nshards = args[:6]
+    if len(args) > 6 and args[6]:
+        os.environ["NSSVERIF_BREADCRUMB"] = args[6]
     try:
         prepare_environment()
         mod = importlib.import_module(modname)
@@ -527,11 +537,35 @@ def run_property(modname: str, tier: str, base_seed: int, only: Optional[List[st
         if shards > 1:
             import multiprocessing as mp
 
+            import concurrent.futures as cf
+            import shutil
+            import tempfile
+            from concurrent.futures.process import BrokenProcessPool
+
             ctx = mp.get_context("spawn")
-            with ctx.Pool(shards) as pool:
-                jobs = [(modname, par, tier, base_seed, s, shards) for s in range(shards)]
-                for res in pool.imap_unordered(_worker, jobs):
-                    absorb(res)
+            crumbs = tempfile.mkdtemp(prefix="nssverif_crumbs_")
+            try:
+                jobs = [(modname, par, tier, base_seed, s, shards, os.path.join(crumbs, f"shard{s}.json")) for s in range(shards)]
+                died = False
+                with cf.ProcessPoolExecutor(max_workers=shards, mp_context=ctx) as pool:
+                    futs = [pool.submit(_worker, j) for j in jobs]
+                    for fut in cf.as_completed(futs):
+                        try:
+                            absorb(fut.result())
+                        except BrokenProcessPool:
+                            died = True
+                if died:
+                    # A worker process was killed (native crash, abort, kill). Every shard left the case it was
+                    # running in its breadcrumb file; each is re-run in a fresh interpreter: a case that kills
+                    # the interpreter again is a violation (with that case as replay), otherwise harness error.
+                    confirmed = _confirm_crashes(pid, modname, crumbs)
+                    if not confirmed:
+                        raise HarnessError("a worker process died and no recorded case reproduces it in a fresh interpreter (out of memory? killed from outside?)")
+                    for vio in confirmed:
+                        if not any(v["subcheck"] == vio["subcheck"] and v["detail"] == vio["detail"] for v in violations):
+                            violations.append(vio)
+            finally:
+                shutil.rmtree(crumbs, ignore_errors=True)
         else:
             absorb(_worker((modname, par, tier, base_seed, 0, 1)))
     if ser:
@@ -653,6 +687,38 @@ def run_property(modname: str, tier: str, base_seed: int, only: Optional[List[st
         raise HarnessError("evidence file invalid: " + "; ".join(problems))
     print(f"OK {pid} tier={tier} seed={base_seed} cases={evaluations} nontrivial={nontrivial} wall={wall:.1f}s")
     return 0
+
+
+def _confirm_crashes(pid, modname, crumbs_dir):
+    """Re-runs every breadcrumb case in a fresh interpreter; returns violations for those that kill it again."""
+    import subprocess
+    import tempfile
+
+    out = []
+    seen = set()
+    for fn in sorted(os.listdir(crumbs_dir)):
+        try:
+            with open(os.path.join(crumbs_dir, fn)) as f:
+                rec = json.load(f)
+        except (OSError, ValueError):
+            continue
+        key = case_hash(rec["subcheck"], rec["case"])
+        if key in seen:
+            continue
+        seen.add(key)
+        with tempfile.NamedTemporaryFile("w", suffix=".json", delete=False) as tf:
+            json.dump({"property": pid, "subcheck": rec["subcheck"], "case": rec["case"]}, tf)
+        try:
+            r = subprocess.run([sys.executable, "-m", "nssverif.main", pid, "--replay", tf.name], capture_output=True, text=True, timeout=3600)
+        except subprocess.TimeoutExpired:
+            continue
+        finally:
+            os.unlink(tf.name)
+        if r.returncode < 0 or r.returncode >= 128:
+            sig = -r.returncode if r.returncode < 0 else r.returncode - 128
+            tail = (r.stderr.strip().splitlines() or [""])[-1][:300]
+            out.append({"subcheck": rec["subcheck"], "case": rec["case"], "detail": f"the interpreter is killed by signal {sig} while the code under test evaluates this case (native crash / heap corruption): {tail}"})
+    return out
 
 
 def validate_evidence(ev: dict) -> List[str]:
